@@ -34,3 +34,110 @@ Definition spec_compare (c : cmpop) (x y : Z) : bool :=
   end.
 
 Definition sign_of (z : Z) : Z := if z <? 0 then -1 else if z =? 0 then 0 else 1.
+
+(* =====================================================================
+   range(start, stop, step), step <> 0: the sequence start, start+step, ...
+   of all values strictly before stop (in the direction of step).
+   ===================================================================== *)
+
+(* x lies on the stop-side bound *)
+Definition before_stop (stop step x : Z) : Prop := (0 < step -> x < stop) /\ (step < 0 -> stop < x).
+
+(* the i-th element *)
+Definition seq_at (start step i : Z) : Z := start + i * step.
+
+(* number of elements (characterised by seq_len_char in ProofsRange: for i >= 0,
+   i < seq_len <-> before_stop (seq_at i)) *)
+Definition seq_len (start stop step : Z) : Z :=
+  if 0 <? step then (if start <? stop then (stop - start - 1) / step + 1 else 0)
+  else if step <? 0 then (if stop <? start then (start - stop - 1) / (- step) + 1 else 0)
+  else 0.
+
+(* membership, as a proposition and decided *)
+Definition seq_mem (start stop step x : Z) : Prop :=
+  exists i, 0 <= i /\ x = seq_at start step i /\ before_stop stop step x.
+
+Definition seq_has (start stop step x : Z) : bool :=
+  let d := x - start in
+  (d mod step =? 0) && (0 <=? d / step) && (d / step <? seq_len start stop step).
+
+Definition seq_list (start stop step : Z) : list Z :=
+  map (fun i => seq_at start step (Z.of_nat i)) (seq 0 (Z.to_nat (seq_len start stop step))).
+
+(* Python slice index normalisation for a sequence of length n, step k <> 0:
+   (first index, count) of the selected indices first, first+k, ... *)
+Definition norm_index (n : Z) (v : option Z) (dflt lo hi : Z) : Z :=
+  match v with
+  | None => dflt
+  | Some z => let z := if z <? 0 then z + n else z in if z <? lo then lo else if hi <? z then hi else z
+  end.
+
+Definition slice_sel (n : Z) (lo hi : option Z) (k : Z) : Z * Z :=
+  if 0 <? k then
+    let s := norm_index n lo 0 0 n in let e := norm_index n hi n 0 n in
+    (s, seq_len s e k)
+  else
+    let s := norm_index n lo (n - 1) (-1) (n - 1) in let e := norm_index n hi (-1) (-1) (n - 1) in
+    (s, seq_len s e k).
+
+(* =====================================================================
+   floats: a finite binary64 value is (signed mantissa m) * 2^e
+   ===================================================================== *)
+Import Floats.SpecFloat.
+
+Definition float_me (f : spec_float) : option (Z * Z) :=
+  match f with
+  | S754_zero _ => Some (0, 0)
+  | S754_finite s m e => Some ((if s then Zneg m else Zpos m), e)
+  | _ => None
+  end.
+
+(* truncation towards zero, floor and ceiling of m * 2^e *)
+Definition trunc_me (m e : Z) : Z := if 0 <=? e then m * 2 ^ e else Z.quot m (2 ^ (- e)).
+Definition floor_me (m e : Z) : Z := if 0 <=? e then m * 2 ^ e else m / 2 ^ (- e).
+Definition ceil_me (m e : Z) : Z := if 0 <=? e then m * 2 ^ e else - ((- m) / 2 ^ (- e)).
+Definition integral_me (m e : Z) : bool := if 0 <=? e then true else m mod 2 ^ (- e) =? 0.
+
+(* x compared with m * 2^e, exactly *)
+Definition cmp_Z_me (x m e : Z) : comparison :=
+  if 0 <=? e then x ?= m * 2 ^ e else (x * 2 ^ (- e)) ?= m.
+
+(* the documented total order: NaN is above everything, +-inf beyond every int *)
+Definition spec_cmp_int_float (x : Z) (f : spec_float) : comparison :=
+  match f with
+  | S754_nan => Lt
+  | S754_infinity s => if s then Gt else Lt
+  | _ => match float_me f with Some (m, e) => cmp_Z_me x m e | None => Eq end
+  end.
+
+Definition holds (c : cmpop) (k : comparison) : bool :=
+  match c, k with
+  | EQL, Eq => true | EQL, _ => false
+  | NEQ, Eq => false | NEQ, _ => true
+  | LT, Lt => true | LT, _ => false
+  | LE, Gt => false | LE, _ => true
+  | GT, Gt => true | GT, _ => false
+  | GE, Lt => false | GE, _ => true
+  end.
+
+Definition spec_compare_if (c : cmpop) (x : Z) (f : spec_float) : bool := holds c (spec_cmp_int_float x f).
+Definition spec_compare_fi (c : cmpop) (f : spec_float) (x : Z) : bool := holds c (CompOpp (spec_cmp_int_float x f)).
+
+(* int(float), math.floor, math.ceil: None = must fail (NaN, infinities) *)
+Definition spec_int_of_float (f : spec_float) : option Z :=
+  match float_me f with Some (m, e) => Some (trunc_me m e) | None => None end.
+Definition spec_floor (f : spec_float) : option Z :=
+  match float_me f with Some (m, e) => Some (floor_me m e) | None => None end.
+Definition spec_ceil (f : spec_float) : option Z :=
+  match float_me f with Some (m, e) => Some (ceil_me m e) | None => None end.
+
+(* x in range(...): an int by its value; a float only if it is integral *)
+Definition spec_range_has (start stop step : Z) (y : num) : option bool :=
+  match y with
+  | NInt z => Some (seq_has start stop step z)
+  | NFloat f =>
+      match float_me f with
+      | Some (m, e) => Some (integral_me m e && seq_has start stop step (trunc_me m e))
+      | None => None
+      end
+  end.
